@@ -37,6 +37,10 @@ const Prelude = `(set-option :produce-models true)
 (declare-fun strcode (Str) Int)
 (declare-fun strdecode (Int) Str)
 (declare-fun arrcode ((Array Int Int)) Int)
+(declare-fun kpair (Int Int) Int)
+(declare-fun kfst (Int) Int)
+(declare-fun ksnd (Int) Int)
+(assert (forall ((a Int) (b Int)) (! (and (= (kfst (kpair a b)) a) (= (ksnd (kpair a b)) b)) :pattern ((kpair a b)))))
 (declare-fun strOf ((Array Loc Int) Loc Int) Str)
 (assert (forall ((s Str)) (! (and (>= (slen s) 0) (<= (slen s) 140737488355328)) :pattern ((slen s)))))
 (assert (= (slen str.empty) 0))
@@ -47,8 +51,8 @@ const Prelude = `(set-option :produce-models true)
 (assert (forall ((e (Array Loc Int)) (l Loc) (n Int)) (! (=> (>= n 0) (= (slen (strOf e l n)) n)) :pattern ((strOf e l n)))))
 (assert (forall ((s Str) (lo Int) (hi Int)) (! (=> (and (<= 0 lo) (<= lo hi) (<= hi (slen s))) (= (slen (str.sub s lo hi)) (- hi lo))) :pattern ((str.sub s lo hi)))))
 ; element location used inside quantified contract clauses (keeps arithmetic out of the triggers)
-(declare-fun elt (Slice Int) Loc)
-(assert (forall ((s Slice) (i Int)) (! (= (elt s i) (mk-loc (l-ref (s-loc s)) (+ (l-idx (s-loc s)) i))) :pattern ((elt s i)))))
+(declare-fun elt (Loc Int) Loc)
+(assert (forall ((l Loc) (i Int)) (! (= (elt l i) (mk-loc (l-ref l) (+ (l-idx l) i))) :pattern ((elt l i)))))
 ; errors.Is(err, target) as a relation on interface values (facts added where the wrapping structure is known)
 (declare-fun errIs (Iface Iface) Bool)
 (assert (forall ((x Iface)) (! (=> (not (= x (mk-if 0 (mk-loc 0 0)))) (errIs x x)) :pattern ((errIs x x)))))
